@@ -90,81 +90,119 @@ def diff_fields(layout, got, exp):
     return bad
 
 
-def run_env(name, tier, seed):
-    """Runs generic + env-specific analyses for one environment -> {pid: Result}."""
+STAGES = ["generic", "modes", "wrapkit", "env"]
+# which analysis stages contribute to which property (a cold check only computes what it needs)
+STAGES_FOR = {"C02": ["modes"], "C13": ["wrapkit"], "C14": ["wrapkit"], "C15": ["wrapkit"],
+              "C01": ["generic", "env"], "C03": ["generic", "env"], "C10": ["generic", "env"], "C11": ["generic", "env"]}
+# rough cost order (most expensive first) so that the long poles start first
+COST = ["bin_pack", "mmst", "robot_warehouse", "rubiks_cube", "pac_man", "lbf", "connector", "multi_cvrp", "job_shop", "flat_pack",
+        "tetris", "cleaner", "sudoku", "sokoban", "maze", "cvrp", "tsp"]
+
+
+def run_stage(name, stage, tier, seed):
+    """One analysis stage of one environment -> {pid: Result}.  Stages are independent processes / cache entries:
+    generic (C01/C03/C10/C11 on every catalogued configuration), modes (C02), wrapkit (C13-C15), env (the environment's own
+    model correspondence and verified checkers)."""
     kit = Kit(name, tier, seed)
-    from harness import generic
-    try:
-        generic.analyze(kit)
-    except Exception:
-        tb = traceback.format_exc()
-        for p in generic.PROPS:
-            kit.res[p].fail("generic harness raised on %s" % name, dict(env=name, op="harness-exception"), dict(trace=tb[-1500:]))
-    from harness import modes
-    try:
-        modes.analyze(kit)
-    except Exception:
-        tb = traceback.format_exc()
-        kit.res["C02"].fail("mode harness raised on %s" % name, dict(env=name, op="harness-exception"), dict(trace=tb[-1500:]))
-    from harness import wrapkit
-    try:
-        wrapkit.analyze(kit)
-    except Exception:
-        tb = traceback.format_exc()
-        for p in wrapkit.PROPS:
-            kit.res[p].fail("wrapper harness raised on %s" % name, dict(env=name, op="harness-exception"), dict(trace=tb[-1500:]))
-    modpath = os.path.join(core.VERIF, "harness", "envs", name + ".py")
-    if os.path.exists(modpath):
-        mod = importlib.import_module("harness.envs." + name)
+    if stage == "generic":
+        from harness import generic
         try:
-            mod.analyze(kit)
+            generic.analyze(kit)
         except Exception:
             tb = traceback.format_exc()
-            for p in getattr(mod, "PROPS", []):
-                kit.res[p].fail("env harness raised on %s (implementation or tie broke)" % name,
-                                dict(env=name, op="harness-exception"), dict(trace=tb[-1500:]))
-        for p in ENV_PROPS:
-            if p not in getattr(mod, "PROPS", []) and p in getattr(mod, "APPLIES", []):
-                kit.res[p].not_modelled.append(name)
+            for p in generic.PROPS:
+                kit.res[p].fail("generic harness raised on %s" % name, dict(env=name, op="harness-exception"), dict(trace=tb[-1500:]))
+    elif stage == "modes":
+        from harness import modes
+        try:
+            modes.analyze(kit)
+        except Exception:
+            tb = traceback.format_exc()
+            kit.res["C02"].fail("mode harness raised on %s" % name, dict(env=name, op="harness-exception"), dict(trace=tb[-1500:]))
+    elif stage == "wrapkit":
+        from harness import wrapkit
+        try:
+            wrapkit.analyze(kit)
+        except Exception:
+            tb = traceback.format_exc()
+            for p in wrapkit.PROPS:
+                kit.res[p].fail("wrapper harness raised on %s" % name, dict(env=name, op="harness-exception"), dict(trace=tb[-1500:]))
+    elif stage == "env":
+        modpath = os.path.join(core.VERIF, "harness", "envs", name + ".py")
+        if os.path.exists(modpath):
+            mod = importlib.import_module("harness.envs." + name)
+            try:
+                mod.analyze(kit)
+            except Exception:
+                tb = traceback.format_exc()
+                for p in getattr(mod, "PROPS", []):
+                    kit.res[p].fail("env harness raised on %s (implementation or tie broke)" % name,
+                                    dict(env=name, op="harness-exception"), dict(trace=tb[-1500:]))
+            for p in ENV_PROPS:
+                if p not in getattr(mod, "PROPS", []) and p in getattr(mod, "APPLIES", []):
+                    kit.res[p].not_modelled.append(name)
+    else:
+        raise KeyError(stage)
     # a few (entry, input, output) records of the extracted driver per entry point, attached to every property this
-    # environment contributes to: the check re-evaluates them inside Coq (vm_compute), see check.py xcheck()
+    # stage contributes to: the check re-evaluates them inside Coq (vm_compute), see check.py xcheck()
     for p in ENV_PROPS:
         if kit.res[p].evaluations:
             kit.res[p].xsamples = {k: v[:1] for k, v in core.XSAMPLES.items()}
-    return kit.res
+    return {p: r for p, r in kit.res.items() if r.evaluations or r.failures or r.not_modelled}
 
 
-def env_results(name, tier, seed, use_cache=True):
-    return core.cached(("env", name, tier, seed), lambda: run_env(name, tier, seed), use_cache)
+def run_env(name, tier, seed):
+    """developer mode (./check --env): all stages of one environment in this process -> {pid: Result}"""
+    out = {p: core.Result() for p in ENV_PROPS}
+    for st in STAGES:
+        for p, r in run_stage(name, st, tier, seed).items():
+            out[p].merge(r)
+    return out
+
+
+def stage_results(name, stage, tier, seed, use_cache=True):
+    return core.cached(("stage", stage, name, tier, seed), lambda: run_stage(name, stage, tier, seed), use_cache)
 
 
 def collect(pid, tier, seed, use_cache=True, envs=None):
-    """Merge the per-environment results for property pid; environments run in parallel subprocesses."""
+    """Merge the (environment, stage) results that contribute to property pid; missing ones are computed in parallel
+    subprocesses (one per environment and stage), most expensive first."""
     envs = envs or R.ENVS
-    todo = [e for e in envs if not (use_cache and os.path.exists(core.cache_path("env", e, tier, seed)))]
+    stages = STAGES if pid is None else STAGES_FOR.get(pid, ["env"])
+    items = [(e, st) for e in envs for st in stages]
+    todo = [(e, st) for (e, st) in items if not (use_cache and os.path.exists(core.cache_path("stage", st, e, tier, seed)))]
+    todo.sort(key=lambda x: (COST.index(x[0]) if x[0] in COST else len(COST), x[1]))
+    outs = []
     if todo:
-        def work(e):
-            cmd = [core.PY, "-W", "ignore", "-m", "harness.envkit", e, tier, str(seed)]
+        def work(item):
+            e, st = item
+            import time as _t
+            t0 = _t.time()
+            cmd = [core.PY, "-W", "ignore", "-m", "harness.envkit", e, tier, str(seed), st]
             p = subprocess.run(cmd, cwd=core.VERIF, env=core.py_env(), stdout=subprocess.PIPE, stderr=subprocess.STDOUT, text=True)
-            return e, p.returncode, p.stdout[-3000:]
-        with ThreadPoolExecutor(max_workers=int(os.environ.get("VERIF_JOBS", "12"))) as ex:
+            try:
+                with open(os.path.join(core.CACHE, "stage_times.log"), "a") as f:
+                    f.write("%s %s %s seed=%d rc=%d %.0fs\n" % (e, st, tier, seed, p.returncode, _t.time() - t0))
+            except OSError:
+                pass
+            return e, st, p.returncode, p.stdout[-3000:]
+        with ThreadPoolExecutor(max_workers=int(os.environ.get("VERIF_JOBS", "16"))) as ex:
             outs = list(ex.map(work, todo))
-    else:
-        outs = []
     total = core.Result()
-    for e, rc, out in outs:
+    for e, st, rc, out in outs:
         if rc != 0:
-            total.fail("analysis subprocess for %s crashed" % e, dict(env=e, op="harness-exception"), dict(out=out[-1500:]))
-    for e in envs:
-        p = core.cache_path("env", e, tier, seed)
-        if not os.path.exists(p):
+            total.fail("analysis subprocess for %s/%s crashed" % (e, st), dict(env=e, op="harness-exception"), dict(out=out[-1500:]))
+    if pid is None:
+        return total
+    for e, st in items:
+        if not os.path.exists(core.cache_path("stage", st, e, tier, seed)):
             continue
-        r = env_results(e, tier, seed).get(pid)
+        r = stage_results(e, st, tier, seed).get(pid)
         if r is not None:
             total.merge(r)
     return total
 
 
 if __name__ == "__main__":
-    name, tier, seed = sys.argv[1], sys.argv[2], int(sys.argv[3])
-    env_results(name, tier, seed, use_cache=False)
+    name, tier, seed, stage = sys.argv[1], sys.argv[2], int(sys.argv[3]), sys.argv[4]
+    stage_results(name, stage, tier, seed, use_cache=False)
